@@ -144,8 +144,15 @@ func c11Random(c *Case) {
 	var e xref.Expr = xref.Bin{Op: "|", L: l, R: r}
 	setOnly := false // a step applied AFTER a union may deliver a node once per derivation; only the union itself is held to "each once"
 	switch g.Intn(6) {
-	case 0: // nested union
+	case 0: // nested union, three to six operands, grouped to the left or to the right
 		e = xref.Bin{Op: "|", L: e, R: g.FreePath(1+g.Intn(2), names)}
+		for k := 0; k < 3 && g.Chance(0.4); k++ {
+			if g.Chance(0.5) {
+				e = xref.Bin{Op: "|", L: e, R: g.FreePath(1+g.Intn(2), names)}
+			} else {
+				e = xref.Bin{Op: "|", L: g.FreePath(1+g.Intn(2), names), R: xref.Group{X: e}}
+			}
+		}
 	case 1: // overlapping by construction: B extends or equals A
 		e = xref.Bin{Op: "|", L: l, R: l}
 	case 2: // sequence form p/(a, b)
